@@ -357,6 +357,25 @@ func (r *run) c01live(budget int) {
 			f := malformed(true)
 			stream = append(stream, f...)
 		}
+		if r.g.R.Intn(4) == 0 {
+			// a header the receiver cannot accept (header length, version, total length below 6): a
+			// byte stream cannot be re-framed behind it, the receiver ends and closes Inbound - it
+			// must not hang on it
+			bad := append([]byte(nil), malformed(true)...)
+			if len(bad) >= 6 {
+				switch r.g.R.Intn(3) {
+				case 0:
+					bad[0] = byte(r.g.Pick(0, 5, 7, 255))
+				case 1:
+					bad[1] = byte(r.g.Pick(0, 15, 17, 32))
+				default:
+					bad[4], bad[5] = 0, byte(r.g.Pick(0, 1, 5))
+				}
+				stream = append(stream, bad...)
+				stream = append(stream, malformed(true)...)
+				r.classes["unacceptable-header-in-stream"]++
+			}
+		}
 		var pos []int
 		for p := 1; p < len(stream); p++ {
 			if r.g.R.Intn(25) == 0 {
